@@ -326,7 +326,7 @@ func runFilters(t *testing.T, rc *core.RunCtx) {
 			// The honest node is to be among the responders of every
 			// filter-header query: the others become reachable only once
 			// it is connected.
-			p.up = false
+			p.setUp(false)
 		}
 		if role == "header-liar" && tp.Chance(1, 2) {
 			p.claimHeight = view.Height + int32(tp.Intn(10))
@@ -347,7 +347,7 @@ func runFilters(t *testing.T, rc *core.RunCtx) {
 	if gate {
 		w.runFor(time.Minute, func() bool { return w.peers[0].shook && w.peers[0].connected() })
 		for _, p := range w.peers {
-			p.up = true
+			p.setUp(true)
 		}
 	}
 	if wt.cfValue {
@@ -502,10 +502,10 @@ func runFilters(t *testing.T, rc *core.RunCtx) {
 				continue
 			}
 			rc.Fault("net.down")
-			p.up = false
+			p.setUp(false)
 			p.disconnect("down")
 			pp := p
-			w.after(time.Duration(5+tp.Intn(120))*time.Second, func() { pp.up = true })
+			w.after(time.Duration(5+tp.Intn(120))*time.Second, func() { pp.setUp(true) })
 		default:
 			w.peers[tp.Intn(len(w.peers))].announce(tp.Chance(1, 2), 1+tp.Intn(3))
 		}
@@ -522,11 +522,11 @@ func runFilters(t *testing.T, rc *core.RunCtx) {
 		if p.idx == 0 || p.role == "honest" || (p.role == "cf-liar" && provableOnly) {
 			continue
 		}
-		p.up = false
+		p.setUp(false)
 		p.disconnect("calm phase")
 	}
 	w.peers[0].setView(honestTip)
-	w.peers[0].up = true
+	w.peers[0].setUp(true)
 	w.peers[0].announce(false, 1)
 	const bound = 30 * time.Minute
 	atHonestTip := func() bool {
